@@ -22,7 +22,10 @@ from pymtl3.stdlib.basic_rtl.arbiters import RoundRobinArbiter, RoundRobinArbite
 n, en_variant = %(n)d, %(env)r
 ptr0 = %(ptr)d
 cycles = %(cycles)r
-mk = (lambda: RoundRobinArbiterEn(n)) if en_variant else (lambda: RoundRobinArbiter(n))
+from checks.c19 import decoys
+def mk():
+  decoys(n)
+  return RoundRobinArbiterEn(n) if en_variant else RoundRobinArbiter(n)
 tr = run_trace(mk, {'s.priority_reg.out': ptr0}, cycles, ['s.grants', 's.priority_reg.out'])
 ptr = ptr0
 granted = 0
@@ -42,8 +45,22 @@ if persist and not (granted & persist):
 '''
 
 
+def decoys(n):
+  """other users of the same register classes, built first in the same process: the arbiter's behaviour must not depend
+  on what was constructed before it (per-type caches, class-level state)"""
+  from pymtl3 import mk_bits
+  from pymtl3.stdlib.basic_rtl.registers import RegEnRst, RegRst, RegEn, Reg
+  for mkc in (lambda: RegEnRst(mk_bits(n), reset_value=0), lambda: RegEnRst(mk_bits(n), reset_value=(1 << n) - 2), lambda: RegRst(mk_bits(n), reset_value=2 % (1 << n)),
+              lambda: RegEn(mk_bits(n)), lambda: Reg(mk_bits(n))):
+    try:
+      c = mkc(); c.elaborate()
+    except Exception:
+      pass
+
+
 def make(n, env):
   from pymtl3.stdlib.basic_rtl.arbiters import RoundRobinArbiter, RoundRobinArbiterEn
+  decoys(n)
   return RoundRobinArbiterEn(n) if env else RoundRobinArbiter(n)
 
 
